@@ -583,6 +583,19 @@ func K15() *Entry {
 	return &Entry{Name: "k15", File: f, Cfg: c, Tags: []string{"entry-shaped-message", "all-fields-excluded"}}
 }
 
+// K16: names that differ by a trailing number, a digit run of another length, or a number followed
+// by letters (orderings other than the plain string order are easy to get wrong for them).
+func K16() *Entry {
+	body := func(name string) *ir.Message {
+		// (lower_snake so that a digit inside the name keeps the attribute name unambiguous)
+		return M(name, F("addr2"), F("addr10", Sc(ir.Int64)), F("addr1_x"), F("addr9", Sc(ir.Bool)), F("addr01"), F("addr1"), F("addr"), F("addr1_spec", Rep()), F("addr100", Sc(ir.Int64)),
+			F("Port2"), F("Port10", Sc(ir.Int64)), F("Port"))
+	}
+	f := file("k16", body("RoleV2"), body("RoleV10"), body("RoleV1Spec"), body("RoleV9"), body("Role"), body("RoleV01"), body("RoleV1"), body("RoleV100"))
+	AutoComments(f)
+	return &Entry{Name: "k16", File: f, Cfg: BaseConfig("RoleV2", "RoleV10", "RoleV1Spec", "RoleV9", "Role", "RoleV01", "RoleV1", "RoleV100"), Tags: []string{"numbered-names"}}
+}
+
 // Curated returns the curated corpus. known=true adds the isolated shapes that
 // are known not to compile on the pinned tree (D1, D2).
 func Curated() []*Entry {
